@@ -54,8 +54,8 @@ def _env(data, i, env, in_dq):
     if j < 0:
         return None
     inner = data[i + 2:j]
-    if b'\n' in inner or b'"' in inner or b'\\' in inner or b'\0' in inner or b"'" in inner:
-        raise _Unspec('${...} spanning a newline, quote or backslash')
+    if b'"' in inner or b'\\' in inner or b'\0' in inner or b"'" in inner:
+        raise _Unspec('${...} spanning a quote or backslash')
     k = inner.find(b':')
     if k >= 0:
         if inner[k + 1:k + 2] != b'-':
@@ -158,6 +158,7 @@ def lex(data, env=None):
                         e = _env(data, i, env, True)
                         if e is not None:
                             out += e[0]
+                            line += data[i:e[1]].count(b'\n')      # the braces may span lines: every newline counts once
                             i = e[1]
                             continue
                         out.append(c)
@@ -246,7 +247,9 @@ def lex(data, env=None):
             if c == 0x24 and data[i + 1:i + 2] == b'{':
                 e = _env(data, i, env, False)
                 if e is not None:
-                    toks.append(Tok('S', e[0], line, line))
+                    nl = data[i:e[1]].count(b'\n')
+                    toks.append(Tok('S', e[0], line, line + nl))
+                    line += nl
                     i = e[1]
                     continue
             # unquoted word
